@@ -240,8 +240,21 @@ func c14decorate(r *mon.Rand, k *cose.Key, permitOps bool) string {
 		name += "kid,"
 	}
 	if permitOps && r.Bool() {
-		k.Ops = []cose.KeyOp{cose.KeyOpVerify, cose.KeyOpSign}
-		name += "ops,"
+		// key_ops that permit what this half of the key is used for (and, half of the time, nothing else)
+		_, _, _, d := k.EC2()
+		_, _, od := k.OKP()
+		private := len(d) > 0 || len(od) > 0
+		switch {
+		case r.Bool():
+			k.Ops = []cose.KeyOp{cose.KeyOpVerify, cose.KeyOpSign}
+			name += "ops=both,"
+		case private:
+			k.Ops = []cose.KeyOp{cose.KeyOpSign}
+			name += "ops=sign-only,"
+		default:
+			k.Ops = []cose.KeyOp{cose.KeyOpVerify}
+			name += "ops=verify-only,"
+		}
 	}
 	if r.Bool() {
 		k.BaseIV = r.Bytes(8)
